@@ -6,7 +6,7 @@ TIER=${1:-quick}; shift
 PROPS=${*:-C01 C02 C03 C04 C05 C06 C07 C08 C09 C10 C11 C12 C13 C14 C15 C16 C17 C18 C19 C20}
 mkdir -p .refresh
 for p in $PROPS; do
-  bin/check "$p" --tier "$TIER" > ".refresh/$p.$TIER.out" 2>&1
+  bin/check "$p" --tier "$TIER" ${JOBS:+--jobs $JOBS} > ".refresh/$p.$TIER.out" 2>&1
   echo "rc=$?" >> ".refresh/$p.$TIER.out"
   grep -h "^SUMMARY\|^VIOLATION\|^HARNESS-ERROR\|^INCONCLUSIVE\|^KNOWN-FINDING\|^rc=" ".refresh/$p.$TIER.out" | cut -c1-220
 done
